@@ -45,3 +45,25 @@ Theorem C17_dropped_exactly_once_unless_kept :
       (mem db (kept pa) = false /\ count_occ pev_eq_dec tr (PDrop db) = 1%nat).
 Proof. exact dropped_exactly_once. Qed.
 Print Assumptions C17_dropped_exactly_once_unless_kept.
+
+(* ---- the driver itself (Driver.v: a small-step model of run_parallel and of the per-file
+   tasks, every scheduling decision an explicit choice): whatever the scheduler does, whenever
+   Ctrl-C arrives and in whichever order a file's sessions are closed, the trace it emits is a
+   trace of the observer automaton above - so every theorem of this file holds of every run of
+   the driver model, not only of "accepted traces". *)
+From SLT Require Import Driver DriverInv DriverSim.
+
+Theorem C17_driver_refines_observer :
+  forall cf sched st tr, wf_cfg cf -> drun cf (dst0 cf) sched = (st, tr) ->
+    accepts (mkParams (c_jobs cf) (kept_of cf st)) tr = true.
+Proof. exact driver_accepted. Qed.
+Print Assumptions C17_driver_refines_observer.
+
+(* a finished run has closed the management connection: C17_dropped_exactly_once_unless_kept and
+   C19_release apply to it, with kept = the failed files' databases under --keep-db-on-failure
+   (all of them after a refused connection) *)
+Theorem C17_driver_end_closed :
+  forall cf sched st tr, wf_cfg cf -> drun cf (dst0 cf) sched = (st, tr) -> d_phase st = DEnd ->
+    exists p, prun (mkParams (c_jobs cf) (kept_of cf st)) pst0 tr = Some p /\ closed_ p = true.
+Proof. exact driver_end_closed. Qed.
+Print Assumptions C17_driver_end_closed.
